@@ -136,7 +136,9 @@ check("C01",
            "(thorough), compact alphabet to depth 3 / 4, each under ascending, descending and alternating heap-address orders; "
            "per step the model (key with normal forms -> id) decides 'must be node #k' or 'must be a node never seen'; all requests "
            "re-issued in 3 orders at the end; plus long histories of 1024 (4096) keys per constructor family in 3 insertion orders "
-           "x 4 address modes. distinct_nontrivial = histories in which some request had to hit an existing node.",
+           "x 4 address modes; the compact alphabet again to depth 2 (3) with a second Lexicon that performs every request right after the "
+           "first one (each against its own model), and with a transient Lexicon that repeats the history so far after every step and dies. "
+           "distinct_nontrivial = histories in which some request had to hit an existing node.",
       text="All request histories up to the bound are executed on the real type factory under controlled address "
            "orders and compared step by step with a key->node reference model.",
       note="Normal forms are applied to the model key (nested qualification, natural transfer omitted, default throws = false). "
@@ -181,7 +183,7 @@ check("C07",
            "enumerators, <= 4 bases, 0..3 handlers: positions, singleton sets, lookup; scopes are examined at the end of a history, and "
            "additionally after exactly one step (every step) and after every step; one name with 12 and 40 (200) pairwise distinct "
            "types through three declaration kinds, every type selected after every addition, every pair redeclared; member lists of "
-           "300 and 1100 (70000). distinct_nontrivial = histories with a redeclaration.",
+           "300 and 1100 (70000). histories of <= 4 declarations also with a second Lexicon in lockstep and with a transient Lexicon repeating the history so far after every step, both validated like the first. distinct_nontrivial = histories with a redeclaration.",
       text="Every declaration history up to the bound is executed on the real scope machinery and the whole scope is "
            "compared with a vector reference model.",
       note="Each (name,type) pair is only ever used by one declaration kind, as the property requires; names within one "
